@@ -272,6 +272,8 @@ tree_harness!(c12_tree2_cache_l1_8, 2, 2, ["ab", "a(.)"], false, Op::Cache(1, 8)
 tree_harness!(c12_tree2_ci_cache_before_insert, 2, 2, ["aB", "A(.)"], true, Op::CacheBeforeLastInsert);
 // ---- one pattern: the emptied tree keeps its case mode (RegexTreeMap::retain writes the root back)
 tree_harness!(c08_tree1_ci_retain_none_reinsert, 1, 2, ["aB"], true, Op::RetainNoneReinsert(0));
+tree_get_harness!(c08_tree1_replace_and_get, 1, 2, ["a(.)"], false, Op::Replace(0));
+tree_harness!(c08_tree2_disjoint_find, 2, 2, ["ab", "b(.)"], false, Op::None);
 tree_harness!(c08_tree1_ci_remove_reinsert, 1, 2, ["aB"], true, Op::RemoveReinsert(0));
 tree_harness!(c08_tree2_ci_retain_none_reinsert, 2, 2, ["aB", "A(.)"], true, Op::RetainNoneReinsert(0));
 tree_get_harness!(c08_tree2_get_after_remove, 2, 1, ["ab", "a(.)"], false, Op::Remove(1));
@@ -288,3 +290,30 @@ tree_harness!(c08_tree3_reinsert, 3, 2, ["ab", "a(.)", "b"], false, Op::RemoveRe
 tree_harness!(c12_tree3_cache_none_2, 3, 2, ["ab", "a(.)", "b"], false, Op::Cache(255, 2));
 tree_harness!(c12_tree3_cache_then_remove, 3, 2, ["ab", "a(.)", "b"], false, Op::CacheThenRemove(1));
 
+
+/// Cache budget arithmetic on a single-leaf tree for ANY limit and level (u64): no underflow of the
+/// remaining budget, at most `limit` items cached, returned budget == limit - cached, lookups
+/// unchanged, and a second warm-up caches nothing more.
+#[kani::proof]
+#[kani::unwind(9)]
+#[kani::stub(std::mem::swap, typed_swap)]
+fn c12_tree1_cache_any_limit_level() {
+    let mut t: RegexTreeMap<u8> = RegexTreeMap::new(false);
+    t.insert("a(.)", "0", 0);
+    let limit: u64 = kani::any();
+    let level: Option<u64> = kani::any();
+    let left = t.cache(limit, level);
+    let cached = t.cached_len() as u64;
+    assert!(cached <= limit && cached <= 1);
+    assert!(left == limit - cached);
+    let left2 = t.cache(left, level);
+    assert!(t.cached_len() as u64 == cached && left2 == left);
+    let hb = ascii_bytes::<2>();
+    let h = as_str(&hb);
+    let found = t.find(h);
+    assert!((found.len() == 1) == linear("a(.)", h, false));
+    kani::cover!(cached == 1);
+    kani::cover!(cached == 0 && limit > 0);
+    std::mem::forget(found);
+    std::mem::forget(t);
+}
